@@ -387,6 +387,7 @@ end
 
 def probeP : Val := .tuple [.str [112, 114, 111, 98, 101, 46, 80], .int 11, .int 22]          -- ("probe.P", 11, 22)
 def probeObj : Val := .tuple [.str [112, 114, 111, 98, 101, 46, 79, 98, 106], .int 44, .int 55] -- ("probe.Obj", 44, 55)
+def probeQ : Val := .tuple [.str [112, 114, 111, 98, 101, 46, 81], .int 12, .int 23]          -- ("probe.Q", 12, 23)
 def probeSvc : Val := .tuple [.str [112, 114, 111, 98, 101, 46, 83, 118, 99], .int 66, .int 77] -- ("probe.Svc", 66, 77)
 
 /-- the five objects `Connection._box` was run on when the facts were recorded -/
@@ -395,13 +396,44 @@ def boxProbes : List (String × Code.Obj) :=
    ("tuple", .tup [.plain (.int 5), .object probeObj]),
    ("nested", .tup [.ownProxy probeP, .tup [.plain (.str [107]), .object probeObj], .plain (.bytes [])]),
    ("object", .object probeObj),
-   ("proxy", .ownProxy probeP)]
+   ("proxy", .ownProxy probeP),
+   ("foreign-proxy", .object probeQ),                       -- another connection's proxy is an object like any other
+   ("tuple-with-foreign-proxy", .tup [.ownProxy probeP, .object probeQ])]
 
-/-- handler numbers of the requests a probe emitted -/
-def requestHandlers (vs : List Val) : List (Option Nat) :=
-  vs.map (fun v => match Msg.ofVal? v with
-    | some (.request _ h _) => some h
+/-- the operations the generator performed on the live proxy (probe names of Gen/Recorded.lean) and the published
+handler each must use for its own request.  (An operation may issue auxiliary requests as well — an INSPECT for a
+new class, `__iter__` before BUFFITER, a DEL when a proxy dies: their number and order are the client's business.) -/
+def probeOperations : List (String × String) :=
+  [("root", "HANDLE_GETROOT"), ("root", "HANDLE_INSPECT"), ("ping", "HANDLE_PING"), ("getattr", "HANDLE_GETATTR"),
+   ("setattr", "HANDLE_SETATTR"), ("delattr", "HANDLE_DELATTR"), ("call", "HANDLE_CALL"), ("call-kw", "HANDLE_CALL"),
+   ("callattr-special", "HANDLE_CALLATTR"), ("callattr-kw", "HANDLE_CALLATTR"), ("cmp-eq", "HANDLE_CMP"),
+   ("cmp-lt", "HANDLE_CMP"), ("hash", "HANDLE_HASH"), ("str", "HANDLE_STR"), ("repr", "HANDLE_REPR"),
+   ("dir", "HANDLE_DIR"), ("ctxexit", "HANDLE_CTXEXIT"), ("pickle", "HANDLE_PICKLE"),
+   ("oldslicing", "HANDLE_OLDSLICING"), ("buffiter", "HANDLE_BUFFITER"), ("class-proxy", "HANDLE_INSPECT"),
+   ("instancecheck", "HANDLE_INSTANCECHECK"),
+   ("del-class", "HANDLE_DEL"), ("call-with-object", "HANDLE_CALL"), ("async-call-kw", "HANDLE_CALL"),
+   ("timed-call-kw", "HANDLE_CALL"), ("call-with-foreign-proxy", "HANDLE_CALL"), ("del", "HANDLE_DEL"),
+   ("close", "HANDLE_CLOSE")]
+
+/-- did the probe emit a request with that published handler -/
+def probeUsed (recorded : List (String × List Val)) (op : String × String) : Bool :=
+  match recorded.lookup op.1, handlerTable.lookup op.2 with
+  | some vs, some h => (vs.map (fun v => match Msg.ofVal? v with
+      | some (.request _ h' _) => h' == h
+      | _ => false)).any id
+  | _, _ => false
+
+/-- `(handler, boxed args)` of a recorded request, whatever its sequence number -/
+def requestBodies (vs : List Val) : List Val :=
+  vs.filterMap (fun v => match v with
+    | .tuple [_, _, body] => some body
     | _ => none)
+
+/-- did the probe emit a request with exactly this `(handler, boxed args)` -/
+def probeEmitted (recorded : List (String × List Val)) (name : String) (handler : String) (args : Code.Obj) : Bool :=
+  match recorded.lookup name, handlerTable.lookup handler with
+  | some vs, some h => (requestBodies vs).any (fun b => Val.beq b (.tuple [.int (h : Nat), Code.box args]))
+  | _, _ => false
 
 def conformingMessage (v : Val) : Bool :=
   match Msg.ofVal? v with
